@@ -75,7 +75,12 @@ func (c *Compiler) Reset() {
 	c.symbolTable = NewGlobalSymbolTable()
 	c.labelCounter = 0
 	c.loopStack = nil
-	// Keep the optimizer with its current settings
+	// Keep the optimizer with its current settings, but not the constants,
+	// copies and expressions it recorded for the previous body: another
+	// route's variables are unrelated to this one's even when names coincide.
+	if c.optimizer != nil {
+		c.optimizer = NewOptimizer(c.optimizer.level)
+	}
 }
 
 // Compile compiles an AST module to bytecode
